@@ -47,6 +47,15 @@ def generate(ctx):
                 node = {"t": "dir", "entries": [[hx(b"l%d" % lvl), node]]}
             spec["entries"].append([hx(b"chain%d" % k), node])
         cases.append({"tree": spec, "slashes": rng.choice([0, 0, 1, 2, 3]), "relative": rng.random() < 0.3, "listing_seed": rng.randrange(2**31), "git": i % 3 == 0})
+    # fixed shapes, in every run: a directory named like the root nested below it, holding an empty
+    # directory, next to a non-empty directory of the same relative name one level up; read through
+    # every spelling of the root
+    F = lambda seed, size=3: {"t": "file", "mode": 0o644, "seed": seed, "size": size}
+    D = lambda *ents: {"t": "dir", "entries": [[hx(n), c] for n, c in ents]}
+    selfname = D((b"pkg", D((b"top", D((b"data", D()), (b"keep", F(1)))), (b"data", D((b"f", F(2)))))), (b"top", D((b"top", D((b"e", D()))), (b"x", F(3)))), (b"README", F(4, 10)))
+    for rel in (True, False):
+        for sl in (0, 1, 2):
+            cases.append({"tree": selfname, "slashes": sl, "relative": rel, "listing_seed": rng.randrange(2**31), "git": sl == 0})
     return cases
 
 
